@@ -13,6 +13,7 @@ from ..helpers import HippoPrettyPrinter
 from ..network.transport import Direction
 from .msgtypes import PacketFlags, MsgBlockType
 from .template import MessageTemplate
+from .template_dict import DEFAULT_TEMPLATE_DICT
 from .message import Message, Block, maybe_reload_templates
 
 
@@ -148,6 +149,14 @@ class HumanMessageSerializer:
             if len(failed) == len(deferred_packed):
                 raise failed[0][1]
             deferred_packed = [x[0] for x in failed]
+
+        # Variable blocks with no entries have no textual form, but the serializer
+        # needs to know they're there to be able to write their (zero) count.
+        template = DEFAULT_TEMPLATE_DICT.get_template_by_name(msg.name) if msg else None
+        if template:
+            for tmpl_block in template.blocks:
+                if tmpl_block.block_type == MsgBlockType.MBT_VARIABLE and tmpl_block.name not in msg.blocks:
+                    msg.create_block_list(tmpl_block.name)
         return msg
 
     @classmethod
